@@ -1,7 +1,8 @@
 /-
 C22 — Placeholder selectors never reach the output.  Property theorems only; lemmas in
 RsassModel/Sel/PlaceholderLemmas.lean, model in RsassModel/Sel/Placeholder.lean.
-`phSpec` = deviation flags off, `phAsis` = the code today (`notLeavesEmptyCompound`).
+`phSpec` = deviation flags off = `phOld`, the code today (since /repo 27c3ca1);
+`phOld` = the code before (`notLeavesEmptyCompound`).
 -/
 import RsassModel.Sel.PlaceholderLemmas
 
@@ -104,28 +105,31 @@ example : Pseudo.noPlaceholder phSpec (.mk "is".toList (.sel [.leaf (Compound.of
         [.mk "is".toList (.sel [.leaf (Compound.ofPlaceholder "p")]) false])).anyCompound
         (fun c => (Compound.noPlaceholder phSpec c).isNone) = true := ⟨rfl, rfl⟩
 
-/-- Deviation `notLeavesEmptyCompound`, partial: the code agrees with the specification on every
+/-- Deviation `notLeavesEmptyCompound` (repaired by 27c3ca1), partial: the old code agrees with the specification on every
 compound that keeps a simple selector outside its pseudo-classes (given agreement on the
 pseudo-class arguments). -/
-theorem noPlaceholder_asis_partial (b : Bool) (e : Option (List Char)) (pl c : List (List Char))
+theorem noPlaceholder_old_partial (b : Bool) (e : Option (List Char)) (pl c : List (List Char))
     (i : Option (List Char)) (a : List Attr) (ps : List Pseudo)
     (hne : (Compound.mk b e pl c i a []).isEmpty = false)
-    (hps : Pseudo.noPlaceholderList phAsis ps = Pseudo.noPlaceholderList phSpec ps) :
-    Compound.noPlaceholder phAsis (.mk b e pl c i a ps) = Compound.noPlaceholder phSpec (.mk b e pl c i a ps) := by
+    (hps : Pseudo.noPlaceholderList phOld ps = Pseudo.noPlaceholderList phSpec ps) :
+    Compound.noPlaceholder phOld (.mk b e pl c i a ps) = Compound.noPlaceholder phSpec (.mk b e pl c i a ps) := by
   simp only [Compound.noPlaceholder, hps, Compound.orUniversal, hne, Bool.and_false]
 
 example : (Compound.mk false (some ['a']) [] [] none [] []).isEmpty = false := rfl
 
-/-- Refutation of the full statement for the code as it is: `a :not(%p) { … }` is written with
+/-- Refutation of the full statement for the old code: `a :not(%p) { … }` is written with
 the header `a ` (which selects `a`), selector semantics require `a *` (witness of known
 finding C22-not-empties-compound). -/
-theorem not_only_compound_asis_refuted :
-    ruleHeaderQ phAsis false true [.rel .ancestor (.leaf (Compound.ofElem "a"))
+theorem not_only_compound_old_refuted :
+    ruleHeaderQ phOld false true [.rel .ancestor (.leaf (Compound.ofElem "a"))
         (.mk false none [] [] none [] [.mk "not".toList (.sel [.leaf (Compound.ofPlaceholder "p")]) false])]
       = some "a ".toList
     ∧ ruleHeaderQ phSpec false true [.rel .ancestor (.leaf (Compound.ofElem "a"))
         (.mk false none [] [] none [] [.mk "not".toList (.sel [.leaf (Compound.ofPlaceholder "p")]) false])]
       = some "a *".toList := by
   decide
+
+/-- The code today is the specification model. -/
+theorem asis_is_spec : phAsis = phSpec := rfl
 
 end Sel.C22
